@@ -10,7 +10,7 @@ M = {
  "S17-hilbert-rect-allocation": ["C01", "C05"], "S18-morton-copy-component-loop": ["C05"], "S19-morton-bmi2-mask-width": ["C14", "C01"],
  "S20-round-pow2-bit-smear": ["C18"], "S22-compose-drops-left-translation": ["C09"], "S23-compose-right-factor-transposed": ["C09"],
  "S24-layer-transposed-linear-part": ["C09"], "S25-hilbert-static-extent-cache": ["C16"], "S26-morton-1d-shift-overflow": ["C15", "C14"], "N01-morton-tight-storage-correct": ["C18", "C01", "C05"], "N02-affine-layer-inline-correct": ["C09"],
- "N03-r01_numeric_loops": ["C18"], "N04-r02_binio_mismatch_helper": ["C08"], "N05-r03_array_copy_helper": ["C12"], "N06-r04_array_io_switch": ["C08"],
+ "N03-r01_numeric_loops": ["C18"], "N04-r02_binio_mismatch_helper": ["C08"], "N05-r03_array_copy_helper": ["C12"], "N06-r04_array_io_switch": ["C08", "C06"],
  "N07-r05_morton_index_helper": ["C14", "C01"], "N08-r06_strided_total_size": ["C01", "C05"], "N09-r07_hilbert_index": ["C14", "C01"],
  "N10-r08_clamp_scalar_helper": ["C10"], "N11-r09_linear_hoist_weights": ["C03"], "N12-r10_algebra_matrix_affine": ["C09"], "S21-rowmajor-stride-accumulate": ["C14", "C01"],
 }
